@@ -6,7 +6,7 @@ from .common import *
 
 META = {
     'title': 'TLSH/Nilsimsa: Pearson table is a permutation, digest layout vs from_hash/distance thresholds, None for unhashable input, distance symmetry and non-negativity by shape, nilsimsa trigram formula',
-    'expected_min': 30,
+    'expected_min': 112,
     'explanation': 'PEARSON_T is checked to be a permutation of 0..255 (and pinned by digest, cross-validated by the known-answer tests); every method of '
                    'tlsh.py and nilsimsa.py is normalised and compared with a restatement of the reference algorithms; writer/reader agreement: '
                    'digest() length = chklen+2+buckets/4 and the thresholds 66/34/14 of distance() for all six configurations; distance() is symmetric '
